@@ -265,6 +265,35 @@ func propC09(a *Analysis, r *Registry) {
 					}
 				}
 			}
+			if !ok {
+				// the single-exit form: a flag flipped by x <= 0 for an element x ends the loop, and
+				// with the flag flipped the function returns NaN
+				for _, l := range fc.Ctx.Loops() {
+					for _, lf := range fc.latchFlags(l.Header) {
+						c := lf.flip.SingleAtom()
+						if c == nil || c.Name != "cmp<=" {
+							continue
+						}
+						x := c.Args[0].SingleAtom()
+						z, isC := c.Args[1].IsConst()
+						if x == nil || x.Name != "idx" || !isC || z.Sign() != 0 {
+							continue
+						}
+						v := fc.gatedReturns(fn.Blocks[0], 0, nil)
+						if v == nil {
+							continue
+						}
+						flipped := S.True()
+						if lf.init {
+							flipped = S.False()
+						}
+						fv := X.SimplifyUnder(v.Subst(map[AtomID]*RF{lf.atom.SingleAtom().ID: flipped}), nil)
+						if at := fv.SingleAtom(); at != nil && at.Name == "math.NaN" {
+							ok = true
+						}
+					}
+				}
+			}
 			if ok {
 				r.OK("C-decision", "stats.GeoMean/x<=0→NaN", b.pos(fn), "a non-positive element returns NaN")
 			} else {
